@@ -711,16 +711,26 @@ def run_obligation(ob, seed=0, tier="quick", collect_functions=True):
             if ndone == 0:
                 # fall back to a solver model of the assumptions of the first ok path
                 for p in paths:
-                    s = _solver(20000)
-                    s.add(_base_constraints(ob, p, assume_f))
-                    s.add(_exact_constraints(p, set(p.monos)))
-                    if str(s.check()) == "sat":
-                        vals = _model_inputs(ob, s.model())
-                        cr = ConcreteRun(ob, vals)
-                        if cr.assume_ok and cr.exc is None:
-                            ndone = 1
-                            res["tv_points"] = 1
-                            break
+                    for margin in (1e-4, 1e-7, 0.0):
+                        s = _solver(20000)
+                        if margin:
+                            s.add(core.bounds_constraints(margin))
+                            s.add([a.tighten(margin).z3() for a in assume_f])
+                            s.add([c.z3() for c in p.pc])
+                            s.add([d[0] for d in p.defs if d[0] is not None])
+                        else:
+                            s.add(_base_constraints(ob, p, assume_f))
+                        if len(p.monos) <= 40:
+                            s.add(_exact_constraints(p, set(p.monos)))
+                        if str(s.check()) == "sat":
+                            vals = _model_inputs(ob, s.model())
+                            cr = ConcreteRun(ob, vals)
+                            if cr.assume_ok and cr.exc is None:
+                                ndone = 1
+                                res["tv_points"] = 1
+                                break
+                    if ndone:
+                        break
                 if ndone == 0:
                     problems.append("no concrete point satisfying the assumptions was found (vacuity suspect)")
             for pr in problems:
